@@ -200,7 +200,49 @@ C05_FinalsOncePerChange(sch, idx, hs, o) ==
       IN /\ cntState = (IF entered /\ <<"state", n>> \in hs.binds[b].fin THEN 1 ELSE 0)
          /\ cntEnd   = (IF exited  /\ <<"end", n>>   \in hs.binds[b].fin THEN 1 ELSE 0)
 
+(* "the bound handlers run": in an accepted transition every bound handler the  *)
+(* documented sequence demands was called, for every binding that owns it.    *)
+(* States that a negotiation handler rejected (partial auto acceptance) are   *)
+(* left out of the demand.                                                    *)
+HCalled(o, b, h) == \E i \in 1..Len(o.hlog) : o.hlog[i].b = b /\ o.hlog[i].h = h
+
+RejectedState(o, s) ==
+  \E i \in 1..Len(o.hlog) :
+     /\ <<o.hlog[i].b, o.hlog[i].h>> \in o.vetoed
+     /\ \/ o.hlog[i].h = <<"enter", s>> \/ o.hlog[i].h = <<"self", s>>
+        \/ (HKind(o.hlog[i]) = "ss" /\ o.hlog[i].h[3] = s)
+
+C05_Complete(sch, hs, o) ==
+  (o.accepted /\ hs.on) =>
+    \A b \in 1..Len(hs.binds) :
+      LET neg == hs.binds[b].neg
+          fin == hs.binds[b].fin
+          kept(s) == SHas(o.target0, s) /\ SHas(o.target, s) /\ ~RejectedState(o, s)
+          exits0 == SDiff(o.before, o.target0)
+      IN /\ \A i \in 1..Len(o.exits) :
+              (SHas(exits0, o.exits[i]) /\ <<"exit", o.exits[i]>> \in neg)
+                 => HCalled(o, b, <<"exit", o.exits[i]>>)
+         /\ \A i \in 1..Len(o.enters) :
+              (kept(o.enters[i]) /\ <<"enter", o.enters[i]>> \in neg)
+                 => HCalled(o, b, <<"enter", o.enters[i]>>)
+         /\ o.mut.type # "remove" =>
+              \A i \in 1..Len(o.before) :
+                 (kept(o.before[i]) /\ <<"self", o.before[i]>> \in neg)
+                    => HCalled(o, b, <<"self", o.before[i]>>)
+         /\ \A i \in 1..Len(o.before) : \A j \in 1..Len(o.target0) :
+              (/\ o.before[i] # o.target0[j] /\ kept(o.target0[j])
+               /\ <<"ss", o.before[i], o.target0[j]>> \in neg)
+                 => HCalled(o, b, <<"ss", o.before[i], o.target0[j]>>)
+         /\ (<<"anyenter">> \in neg) => HCalled(o, b, <<"anyenter">>)
+         /\ ~o.mut.check =>
+              /\ \A i \in 1..Len(o.enters) :
+                   (<<"state", o.enters[i]>> \in fin) => HCalled(o, b, <<"state", o.enters[i]>>)
+              /\ \A i \in 1..Len(o.exits) :
+                   (<<"end", o.exits[i]>> \in fin) => HCalled(o, b, <<"end", o.exits[i]>>)
+              /\ (<<"anystate">> \in fin) => HCalled(o, b, <<"anystate">>)
+
 C05_Tx(sch, idx, hs, o) ==
+  /\ C05_Complete(sch, hs, o)
   /\ C05_PhaseOrder(o)
   /\ C05_RelOrder(sch, o)
   /\ C05_NegotiationSeesBefore(o)
